@@ -59,6 +59,16 @@ seq_t dtw_distance{{ suffix }}{{ suffix2 }}(seq_t *s1, idx_t l1,
     #ifdef DTWDEBUG
     printf("r=%zu, c=%zu\n", l1, l2);
     #endif
+    if (l1 > l2) {
+        ldiff = l1 - l2;
+        dl = ldiff;
+    } else {
+        ldiff  = l2 - l1;
+        dl = 0;
+    }
+    if (settings->max_length_diff != 0 && ldiff > settings->max_length_diff) {
+        return INFINITY;
+    }
     if (settings->use_pruning || settings->only_ub) {
         {%- if "euclidean" == inner_dist %}
         {%- if "ndim" in suffix %}
@@ -90,16 +100,6 @@ seq_t dtw_distance{{ suffix }}{{ suffix2 }}(seq_t *s1, idx_t l1,
     } else {
         max_dist = pow(max_dist, 2);
     {%- endif %}
-    }
-    if (l1 > l2) {
-        ldiff = l1 - l2;
-        dl = ldiff;
-    } else {
-        ldiff  = l2 - l1;
-        dl = 0;
-    }
-    if (settings->max_length_diff != 0 && ldiff > settings->max_length_diff) {
-        return INFINITY;
     }
     if (window == 0) {
         window = MAX(l1, l2);
